@@ -639,7 +639,7 @@ def check_c06(exe, tier, seed, verdict):
         # trace: Begin, Callback*, End
         events.append({"e": "begin", "main": t["main"], "drop": t["drop"], "shp": t["shp"], "nlay": len(t["main"]),
                        "faults": [{"f": list(f), "x": ["reject"]} for f in sorted(rej)], "attrs": [],
-                       "flags": {"owner": False, "group": False, "nosym": False},
+                       "flags": {"owner": False, "group": False, "nosym": False}, "setters": [],
                        "pd": x["pd"] if ent in ("config_dirs", "set_conf_dirs") else [[1] * 9 for _ in t["main"]]})
         for c in rd.get("cb", []):
             f = rp.get(norm(c["p"]), (0, 0))
@@ -1351,8 +1351,11 @@ def scenario_script(i, x, ent, rej=(), attrs=None, flags=None, malformed=(), res
         if f in [tuple(d) for d in dangling] and f[1] != 0:
             extra += ["rm %s" % hx(p), "symlink %s %s" % (hx(R + "/no/such/target"), hx(p))]
             continue
-        own, grp, link = attrs.get(f, ("ok", "ok", False))
+        own, grp, link = attrs.get(f, ("ok", "ok", False))[:3]
+        perm = (tuple(attrs.get(f, ())) + ("ok",) * 4)[3]
         kind = t["main"][f[0] - 1] if f[1] == 0 else "regular"
+        if perm == "bad" and kind != "devnull":
+            extra.append("chmod %s 640" % hx(p))     # (follows a link: the link itself keeps its 0777 and satisfies every mask)
         if link and kind != "devnull":
             # move the content aside and put a symbolic link in its place
             tgt = "%s/targets/t%d_%d" % (R, f[0], f[1])
@@ -1377,7 +1380,10 @@ def scenario_script(i, x, ent, rej=(), attrs=None, flags=None, malformed=(), res
         fl.append("requiregroup 0")
     if flags.get("nosym"):
         fl.append("followsymlinks 0")
-    if flags.get("perms"):
+    if flags.get("perms") == 2:
+        # a file mask that the files of attribute perm = "bad" (mode 0640) do not satisfy
+        fl.append("requireperms 004 001")
+    elif flags.get("perms"):
         # econf_requirePermissions with masks that every file and directory of the scenario satisfies: no effect of its own, but
         # the other restrictions must keep working next to it
         fl.append("requireperms 444 555")
@@ -1393,6 +1399,8 @@ def scenario_script(i, x, ent, rej=(), attrs=None, flags=None, malformed=(), res
             noise.append("requiregroup %d" % FOREIGN)
         if flags.get("nosym") and r_.random() < 0.5:
             noise.append("followsymlinks 1")
+        if flags.get("perms") and r_.random() < 0.5:
+            noise.append("requireperms 004 001" if flags.get("perms") == 1 else "requireperms 444 555")
         r_.shuffle(fl)
         fl = noise + fl
         if not flags.get("nosym"):
@@ -1442,14 +1450,16 @@ def scenario_events(x, ent, out, paths, K, rej=(), attrs=None, flags=None, malfo
     events = []
     faults = [{"f": list(f), "x": ["reject"]} for f in sorted(rej)] + [{"f": list(f), "x": ["malformed"]} for f in sorted(malformed)] + \
         [{"f": list(f), "x": ["dangling"]} for f in sorted(dangling) if f[1] != 0]
-    alist = [{"f": list(f), "own": a[0], "grp": a[1], "link": bool(a[2])} for f, a in sorted((attrs or {}).items())]
+    alist = [{"f": list(f), "own": a[0], "grp": a[1], "link": bool(a[2]), "perm": (tuple(a) + ("ok",))[3]} for f, a in sorted((attrs or {}).items())]
     fl = {"owner": bool((flags or {}).get("owner")), "group": bool((flags or {}).get("group")), "nosym": bool((flags or {}).get("nosym")),
-          "perms_satisfied": bool((flags or {}).get("perms"))}
+          "perms": {0: "none", 1: "lenient", 2: "strict"}[int((flags or {}).get("perms") or 0)]}
     for n, (j, rd) in enumerate(reads):
         second = n == 1
+        # `flags` is what the scenario intends (used to name the fingerprint only); `setters` are the setter calls the
+        # driver actually made before this read, in call order - the specification folds them into the settings in force
         events.append({"e": "begin", "main": t["main"], "drop": t["drop"], "shp": t["shp"], "nlay": len(t["main"]),
-                       "faults": faults, "attrs": alist, "pd": pd_rows(x, ent),
-                       "flags": {"owner": False, "group": False, "nosym": False} if second else fl})
+                       "faults": faults, "attrs": alist, "pd": pd_rows(x, ent), "setters": setters_before(ev, j),
+                       "flags": {"owner": False, "group": False, "nosym": False, "perms": "none"} if second else fl})
         if use_cb:
             for c in rd.get("cb", []):
                 f = rp.get(norm(c["p"]), (0, 0))
@@ -1482,6 +1492,27 @@ def scenario_events(x, ent, out, paths, K, rej=(), attrs=None, flags=None, malfo
                            "kind": "visible" if (f4_tree(t["main"], t["drop"], pd_rows(x, ent)) if any(f[1] == 0 for f in dangling) else f4_class(x)) else "cfg",
                            "hist": [], "ents": sorted_ents(got or []), "heap_ok": heap_ok, "cbused": use_cb})
     return events
+
+
+def setters_before(ev, j):
+    """the calls of the process-wide setters among ev[:j] as [op, arg] records (every case starts from the reset state)"""
+    out = []
+    for e in ev[:j]:
+        op = e.get("op")
+        if op in ("requireowner", "requiregroup"):
+            out.append({"op": op, "arg": "ok" if e["id"] == 0 else "foreign"})
+        elif op == "followsymlinks":
+            out.append({"op": op, "arg": "on" if e["on"] else "off"})
+        elif op == "requireperms":
+            if (e["file"], e["dir"]) == (0o444, 0o555):
+                out.append({"op": op, "arg": "lenient"})
+            elif (e["file"], e["dir"]) == (0o004, 0o001):
+                out.append({"op": op, "arg": "strict"})
+            else:
+                raise core.ToolFailure("requireperms masks outside the modelled ones: %r" % e)
+        elif op == "resetsec":
+            out.append({"op": op, "arg": ""})
+    return out
 
 
 def validate_scenarios(events, verdict, pid, fpfun):
